@@ -432,6 +432,7 @@ type upstream struct {
 	got    [][]byte
 	done   chan struct{}
 	before int
+	count  int
 }
 
 func newUpstream(t hx.TB) *upstream {
@@ -449,7 +450,10 @@ func newUpstream(t hx.TB) *upstream {
 			go func() {
 				b, _ := io.ReadAll(c)
 				u.mu.Lock()
-				u.got = append(u.got, b)
+				// (only the latest stream is needed; a count stands for the earlier ones - a thorough run has hundreds of
+				// thousands of them)
+				u.count++
+				u.got = [][]byte{b}
 				u.mu.Unlock()
 				_ = c.Close()
 				u.done <- struct{}{}
@@ -529,7 +533,7 @@ func runSendPeer(t hx.TB, all []*upstream, up *upstream, sc sendCase) bool {
 	if !sc.skipHandle {
 		for _, u := range all {
 			u.mu.Lock()
-			u.before = len(u.got)
+			u.before = u.count
 			u.mu.Unlock()
 		}
 		herr = h.Handle(cx)
@@ -542,7 +546,7 @@ func runSendPeer(t hx.TB, all []*upstream, up *upstream, sc sendCase) bool {
 	}
 	up.mu.Lock()
 	var got []byte
-	n := len(up.got) - up.before
+	n := up.count - up.before
 	if n > 0 {
 		got = up.got[len(up.got)-1]
 	}
